@@ -129,22 +129,21 @@ theorem openP_none_of_byte98 (dec : Dec) (file : Bytes) (h : file[98]?.getD 0 = 
 theorem openP_none_of_headZero (dec : Dec) (file : Bytes) (h : HeadZero file) : openP dec file = none :=
   openP_none_of_byte98 dec file (h 98 (by omega))
 
-/-- **C12, pmtiles** (general form): the writer first moves away from the header region
+/-- core of C12 for pmtiles (reader-independent form: byte 98, the tile compression, is still zero
+    or absent, or the lookup-relevant part is complete): the writer first moves away from the header region
     (`set_position p0`, `p0 ≥ 127`), then only appends / repositions behind the header, and writes
     the 127-byte header last.  Every crash state fails to open or has the completed file's
     lookup-relevant part. -/
-theorem pmtiles_crash_safe_general (dec : Dec) (p0 : Nat) (hp0 : 127 ≤ p0) (body : List Op)
+theorem pmtiles_crash_core (p0 : Nat) (hp0 : 127 ≤ p0) (body : List Op)
     (hbody : ∀ op ∈ body, SafeOp op) (hdr : Bytes) (hlen : hdr.length = 127) (i k : Nat) :
     let ops := Op.setPosition p0 :: (body ++ [Op.writeStart hdr])
-    openP dec (crash ops i k) = none ∨ coreP (crash ops i k) = coreP (run ops).file := by
+    (crash ops i k)[98]?.getD 0 = 0 ∨ coreP (crash ops i k) = coreP (run ops).file := by
   intro ops
   have hrun : (run ops).file = crashFrom W.empty ops (ops.length) 0 := by
     simp [crashFrom, run]
   cases i with
   | zero =>
     left
-    apply openP_none_of_headZero
-    intro j _
     simp [ops, crash, W.applyCut, W.empty, run]
     split <;> simp
   | succ i =>
@@ -155,7 +154,7 @@ theorem pmtiles_crash_safe_general (dec : Dec) (p0 : Nat) (hp0 : 127 ≤ p0) (bo
     by_cases hi : i < body.length
     · left
       rw [crashFrom_append_lt _ _ _ _ _ hi]
-      exact openP_none_of_headZero dec _ (crashFrom_safe hw0 body hbody i k)
+      exact crashFrom_safe hw0 body hbody i k 98 (by omega)
     · have hi' : body.length ≤ i := Nat.le_of_not_lt hi
       rw [crashFrom_append_ge _ _ _ _ _ hi']
       have hJ := foldl_safe hw0 body hbody
@@ -180,13 +179,12 @@ theorem pmtiles_crash_safe_general (dec : Dec) (p0 : Nat) (hp0 : 127 ≤ p0) (bo
       | zero =>
         simp only [crashFrom, List.getElem?_cons_zero, List.take_zero, List.foldl_nil, W.applyCut]
         split
-        · left; exact openP_none_of_headZero dec _ hJ.hz
+        · left; exact hJ.hz 98 (by omega)
         · rename_i hne
           simp only [writeAt_zero]
           have hkl : (hdr.take k).length = min k 127 := by simp [hlen]
           by_cases hk : k ≤ 98
           · left
-            apply openP_none_of_byte98
             rw [List.getElem?_append_right (by rw [hkl]; omega), List.getElem?_drop]
             have : (hdr.take k).length + (98 - (hdr.take k).length) = 98 := by rw [hkl]; omega
             rw [this]
@@ -206,6 +204,19 @@ theorem pmtiles_crash_safe_general (dec : Dec) (p0 : Nat) (hp0 : 127 ≤ p0) (bo
               rw [e1, e2, List.drop_drop]
               simp only [List.nil_append, Nat.sub_self, List.drop_zero]
               congr 1; omega
+
+/-- **C12, pmtiles** (general form): the writer first moves away from the header region
+    (`set_position p0`, `p0 ≥ 127`), then only appends / repositions behind the header, and writes
+    the 127-byte header last.  Every crash state fails to open or has the completed file's
+    lookup-relevant part. -/
+theorem pmtiles_crash_safe_general (dec : Dec) (p0 : Nat) (hp0 : 127 ≤ p0) (body : List Op)
+    (hbody : ∀ op ∈ body, SafeOp op) (hdr : Bytes) (hlen : hdr.length = 127) (i k : Nat) :
+    let ops := Op.setPosition p0 :: (body ++ [Op.writeStart hdr])
+    openP dec (crash ops i k) = none ∨ coreP (crash ops i k) = coreP (run ops).file := by
+  intro ops
+  rcases pmtiles_crash_core p0 hp0 body hbody hdr hlen i k with h | h
+  · exact Or.inl (openP_none_of_byte98 dec _ h)
+  · exact Or.inr h
 
 /-- the operation sequence of the real `PMTilesWriter` has the general form -/
 theorem opsP_shape (metaC : Bytes) (tiles : List Bytes) (rootC leavesC hdr : Bytes) :
